@@ -207,7 +207,7 @@ func runProperty(w *World, o *checkOpts) *Report {
 				// ask again for a small, printable model
 				text2 := w.queryText(j.v, j.o, 24)
 				file2 := writeQuery(qdir, j.o.Name+".model", text2)
-				r2 := solve(file2, quick, full, "sat")
+				r2 := solveModel(file2, full)
 				if r2.Status == "sat" {
 					j.o.Result.Model = parseModel(r2.Output)
 				}
@@ -215,6 +215,37 @@ func runProperty(w *World, o *checkOpts) *Report {
 		}(j)
 	}
 	wg.Wait()
+	// replay: candidate inputs of failed obligations are run against the real code
+	replays := 0
+	seenInput := map[string]bool{}
+	for _, j := range jobs {
+		ob := j.o
+		if ob.Cover || ob.Result.Status == "unsat" {
+			continue
+		}
+		if ob.Result.Model == nil {
+			// no model (unknown/timeout): retry with quantified hypotheses dropped; any
+			// candidate is only believed if the replay confirms it on the real code
+			text := weaken(w.queryText(j.v, ob, 24))
+			file := writeQuery(qdir, ob.Name+".weak", text)
+			r2 := solveModel(file, full)
+			if r2.Status == "sat" {
+				ob.Result.Model = parseModel(r2.Output)
+				ob.Result.Tried = append(ob.Result.Tried, "weakened-query:sat")
+			}
+		}
+		if ob.Result.Model == nil || replays >= 6 {
+			continue
+		}
+		in := decodeModel(ob)
+		key, _ := json.Marshal(in)
+		if seenInput[j.v.fname+string(key)] {
+			continue
+		}
+		seenInput[j.v.fname+string(key)] = true
+		replays++
+		ob.Replay = w.replay(j.v, ob, in, filepath.Join(o.out, "replays", o.prop))
+	}
 	retReach := map[string]bool{}
 	byFunc := map[string]*FuncReport{}
 	for _, fr := range rep.Funcs {
@@ -333,12 +364,28 @@ func (rep *Report) finish(o *checkOpts) int {
 		if ob.Result.Model != nil {
 			rp["model"] = decodeModel(ob)
 		}
+		if ob.Replay != nil {
+			rp["replay"] = ob.Replay
+			if ob.Replay.Confirmed {
+				suffix = ""
+			}
+		}
 		data, _ := json.MarshalIndent(rp, "", " ")
 		os.WriteFile(path, data, 0o644)
 		fmt.Printf("FAILED obligation %s (%s) at %s\n", ob.Name, ob.Result.Status, ob.Pos)
 		if m, ok := rp["model"]; ok {
 			mj, _ := json.Marshal(m)
 			fmt.Printf("  counterexample: %s\n", mj)
+		}
+		if ob.Replay != nil {
+			switch {
+			case ob.Replay.Confirmed:
+				fmt.Printf("  replay on the real code CONFIRMS the violation: %s\n", ob.Replay.Cmd)
+			case ob.Replay.Skipped != "":
+				fmt.Printf("  replay skipped: %s\n", ob.Replay.Skipped)
+			default:
+				fmt.Printf("  replay did not reproduce a failure with this input\n")
+			}
 		}
 		fmt.Printf("VIOLATION property=%s replay=%s%s\n", o.prop, path, suffix)
 		exit = 1
